@@ -107,6 +107,7 @@ structure Handler where
   hijacked : Nat := 0           -- exchanges handed over to a hijacking modifier (no response from the proxy)
   aborted : Nat := 0            -- responses whose write failed (client gone / idle deadline)
   cresps : Nat := 0             -- completed responses to CONNECT (not recorded in `marks`)
+  rtFailed : Nat := 0           -- round trips that returned an error (answered with a 502)
   deriving DecidableEq, Repr
 
 structure Sys where
@@ -136,6 +137,9 @@ inductive HL where
   -- round 3
   | gotConnect | hijack | dialStart | dialEnd (ok : Bool) | mitmAccept | cwriteStart | cwriteEnd
   | writeErr | tunnelEnd | peeked (tls : Bool) | handshakeEnd (r : Hs) | h2Stop | h2PeerEnd
+  -- round 4: the upstream round trip returns an ERROR (dial refused, reset, truncated head, timeout):
+  -- `handle` builds a 502 with a Warning header and goes on exactly as with an origin response
+  | rtFail
   deriving DecidableEq, Repr
 
 inductive Label where
@@ -238,6 +242,9 @@ def hstep (closing mu returned : Bool) (h : Handler) : HL → Option Handler
   | .h2Stop => if h.pc = .h2session ∧ closing then some { h with pc := .idleRead } else none
   | .h2PeerEnd => if h.pc = .h2session then some { h with pc := .idleRead } else none
   | .rtEnd rc => if h.pc = .inRoundTrip then some { h with pc := .postRoundTrip, resClose := rc } else none
+  -- `proxyutil.NewResponse(502, nil, req)`: `res.Close = req.Close`, which the decision reads through `reqClose`
+  | .rtFail =>
+    if h.pc = .inRoundTrip then some { h with pc := .postRoundTrip, resClose := false, rtFailed := h.rtFailed + 1 } else none
   | .resmodStart => if h.pc = .postRoundTrip then some { h with pc := .inResmod } else none
   | .resmodEnd => if h.pc = .inResmod then some { h with pc := .postResmod } else none
   | .decide =>
